@@ -13,7 +13,7 @@ CONSTANTS
     CloseFiles = TRUE
 SPECIFICATION TraceSpec
 CONSTRAINT HighWater
-INVARIANTS HeldLayerServes AllReleasedAndEvictedFreesEverything ClosedMeansGone FailedResolveLeaksNothing
+INVARIANTS HeldLayerServes AllReleasedAndEvictedFreesEverything ClosedMeansGone NoOpenFilesAfterClose FailedResolveLeaksNothing
 PROPERTIES ReadWorks ReturnedIsCached NoDuplicateCreation ResolveAgainWorks
 POSTCONDITION TraceAccepted
 CHECK_DEADLOCK FALSE
